@@ -10,7 +10,7 @@ CONSTANTS
   MaxPay = 1
   Cap = 2
   MaxNest = 1
-  Ops = {"CtxRegister", "CtxDeregister", "Dispatch", "CtxQuit", "ModRegister", "ModDeregister", "ModStart", "ModPause", "ModResume", "ModStop", "DropRef", "Tell"}
+  Ops = {"CtxRegister", "CtxDeregister", "Dispatch", "DispatchIntr", "CtxQuit", "ModRegister", "ModDeregister", "ModStart", "ModPause", "ModResume", "ModStop", "DropRef", "Tell"}
   CbOps = {"ModStart", "ModPause", "ModStop", "ModDeregister", "CtxQuit"}
   EvalVals = {TRUE, FALSE}
   Prios = {"N"}
